@@ -265,14 +265,15 @@ Section Parser.
     end.
   Definition parse_string : M str := consume_token t_quote ;;; string_loop F false.
 
+  (* parse_quantifier (repaired): only `?`, `*`, `+` are consumed; anything else — whitespace, a
+     comment, the `=` of a default, the end of the input — is left for the caller and means One.
+     ParseError::ExpectedQuantifier still exists in the enum but is never produced. *)
+  Definition quantifier_of (c : N) : option quant :=
+    if c =? 63 then Some QOpt else if c =? 42 then Some QStar else if c =? 43 then Some QPlus else None.
   Definition parse_quantifier : M quant := fun s =>
-    match p_rest s with
-    | [] => ROk QOne s
-    | c :: _ =>
-      (skip_unwrap 3 ;;;
-       if c =? 63 then ret QOpt else if c =? 42 then ret QStar else if c =? 43 then ret QPlus
-       else if negb (is_whitespace c) then (l <- get_loc ;; fail (PEExpectedQuantifier l))
-       else ret QOne) s
+    match match p_rest s with c :: _ => quantifier_of c | [] => None end with
+    | None => ROk QOne s
+    | Some q => (skip_unwrap 3 ;;; ret q) s
     end.
 
   Definition parse_global : M global :=
